@@ -547,6 +547,16 @@ func (v *Verifier) verifyFunctionFixed(fn *ssa.Function, unrollAll int, fixLen m
 	v.addGlobalFacts(u, fn, st)
 	nAx := len(v.axioms)
 	fr := &Frame{u: u, fn: fn, fi: v.info(fn), contract: u.contract, guard: True, top: true, depth: 0}
+	if u.contract != nil && u.contract.Lemma {
+		// a ghost lemma function is not production code: only its assertions are obligations
+		fr.quiet = true
+	}
+	if u.contract != nil && len(u.contract.Inlines) > 0 {
+		fr.inlineSet = map[string]bool{}
+		for _, n := range u.contract.Inlines {
+			fr.inlineSet[n] = true
+		}
+	}
 	for pi, p := range fn.Params {
 		pv := namedVal(p.Type(), "p!"+p.Name())
 		normStrings(pv)
@@ -825,6 +835,9 @@ func (fr *Frame) execLoop(l *Loop) {
 	}
 	ls := fr.loopSpec(l)
 	n := ls.Unroll
+	if !fr.top && ls.InlineUnroll > 0 {
+		n = ls.InlineUnroll
+	}
 	if fr.unroll != nil {
 		if k, ok := fr.unroll[l]; ok {
 			n = k
